@@ -223,6 +223,15 @@ def band_collection(b, anchors=True):
                     "variant_collection_id": "vc%d" % i, "qualifiers": {}})
     if not anchors:
         return {"genes": genes, "feature_collections": fcs, "variant_collections": vcs, "name": "band", "qualifiers": {}}
+    # members whose children lie in different bins, more than one bin apart: a range query between the children overlaps
+    # the member's span without touching any bin a child occupies
+    w = 2 ** 17 + 10
+    if b - w - 5 >= 0:
+        genes.append({"transcripts": [{"exons": [[b - w - 5, b - w]], "strand": "+", "transcript_id": "tW1", "transcript_type": "ncRNA"},
+                                      {"exons": [[b + w, b + w + 5]], "strand": "-", "transcript_id": "tW2", "transcript_type": "ncRNA"}],
+                      "gene_id": "gWide", "gene_type": "ncRNA", "qualifiers": {}})
+        fcs.append({"features": [{"blocks": [[b - w - 9, b - w - 7]], "strand": "+", "feature_id": "fW1"}, {"blocks": [[b + w + 7, b + w + 9]], "strand": "+", "feature_id": "fW2"}],
+                    "feature_collection_id": "fcWide", "qualifiers": {}})
     lo = max(0, b - 2 ** 18)
     hi = b + 2 ** 18
     if lo + 2 <= b - 4:
@@ -293,6 +302,8 @@ def check_prefilter(spec, ctx):
                                                                 "extra": sorted(set(got) - set(exp))[:4]})
                 if cw and qs > 0 and exp:
                     ctx.label("prefilter_active_nonempty")
+                if not cw and "gWide" in exp and qe - qs < 2 ** 16:
+                    ctx.label("relaxed_query_between_children_of_a_wide_member")
                 if cw and qe == b + 1:
                     ctx.label("query_ends_one_past_boundary")
                 if cw and qs == b - 1:
@@ -338,7 +349,7 @@ PROP = Prop(
             must_hit=["contained", "overlapping"],
             rule="pairs (query range, interval) where the interval is contained in / cut on the left / cut on the right / contains the query; boundary-biased; bins(I, one=True) must be in bins(Q, one=False)"),
         Leg("prefilter_bands", check_prefilter, enumerate=enum_prefilter, exhaustive=True, shards_quick=16, shards_thorough=16,
-            must_hit=["prefilter_active_nonempty", "query_ends_one_past_boundary", "query_starts_one_before_boundary", "band_on_chunk"],
+            must_hit=["prefilter_active_nonempty", "query_ends_one_past_boundary", "query_starts_one_before_boundary", "band_on_chunk", "relaxed_query_between_children_of_a_wide_member"],
             rule="integrated: for boundaries of every level (incl. 2^29), an AnnotationCollection (sequence-less, or on a sequence chunk [b-40,b+40) with that genomic offset) holding features of EVERY span inside b-3..b+3, "
                  "1-2 bp genes (one with isoforms on either side of b), SNVs at b-1,b,b+1 and two far anchors; ALL query ranges with both ends in b-4..b+4 "
                  "plus ends 2^17 away and the collection bounds, completely_within on/off; answer = brute-force membership; stored .bin of every child = reference bin"),
